@@ -39,6 +39,15 @@ What this file does on every run
     attribute added to or removed from any class), `get_current_journal()` is back;
   - no strong reference: with all journals' entries alive, dropping the IR objects lets every one
     of them die (gc + weakref); a journal receives no entry after it was left.
+* round 3:
+  - `journal.meta` / `journal.details` (`check_slot_table`): the installed table entry by entry against the SOURCE of
+    get_original_methods / wrap_ir_classes / restore_ir_classes (ast), against the class attributes that really change on
+    __enter__ (all classes of both modules), and against the behaviour of each installed wrapper's code object with its
+    real details lambda around stubs (order details / original / record, result, target, details string);
+  - `check_entry_shape`: JournalEntry's fields / frozen / runtime types vs the model's EntryFull; gc.get_referents;
+  - `journal.ctl` with a `fail` event (`exit_fault_stream`): a restore step that raises; `generator_stream`;
+  - `journal.kernel` (`kernel_stream`): C01-alphabet histories (kernel_ops.Gen) inside 0-3 journals: the model's
+    instantiated call tree of every call vs the observed one, entries, outcomes, kernel snapshot with vs without journal.
 * coverage floor: two deterministic histories call all 43 instrumented operations inside journals;
   the run fails (exit 2) if any slot was exercised fewer than FLOOR times.
 """
@@ -82,11 +91,27 @@ THEOREMS = [
     "IrVerif.Journal.C20_transparent_needs_ProcNone",
     "IrVerif.Journal.C20_entries",
     "IrVerif.Journal.C20_entries_active",
+    # round 3
+    "IrVerif.Journal.C20_slot_table",
+    "IrVerif.Journal.C20_wrapper_order",
+    "IrVerif.Journal.C20_no_strong_ref",
+    "IrVerif.Journal.C20_no_strong_ref_record",
+    "IrVerif.Journal.C20_entry_core",
+    "IrVerif.Journal.C20_no_strong_ref_run",
+    "IrVerif.Journal.C20_exit_fault",
+    "IrVerif.Journal.C20_exit_fault_leaves_wrapped",
+    "IrVerif.Journal.C20_exit_retry",
+    "IrVerif.Journal.C20_restore_generator_close",
+    "IrVerif.Journal.C20_improper_nesting_not_restored",
+    "IrVerif.Journal.C20_kernel_plain",
+    "IrVerif.Journal.C20_transparent_kernel",
 ]
-# Not in THEOREMS on purpose: "entries keep no strong reference".  In the model `record` can only build
-# a weak handle and the other fields of an entry are not represented, so the corresponding lemma
-# (Lemmas/Journal.lean `block_allWeak`) holds by construction and claims nothing about /repo; that
-# clause of the property is established by the gc + weakref oracle and the field-type checks below only.
+# "entries keep no strong reference": since round 3 the model represents the entry as the dataclass is (eight
+# fields, `EntryFull`; object-valued fields would be `FVal.inst`) and every wrapper's details expression as a
+# function to String; C20_no_strong_ref is a statement about that construction function.  What ties it to /repo:
+# field names / frozen / runtime field types of real entries (`check_entry_shape`), the details string of every
+# slot's real lambda vs the model's (`check_slot_table`), gc.get_referents of every real entry, and the gc +
+# weakref oracle.
 ASSUMPTIONS = [
     "DetailsOk / DetailsPure: the wrappers' `details` expressions (repr of arguments, getattr(self, '_name')) do not "
     "raise and have no effect on the IR or on one-shot iterable arguments: hypotheses of C20_transparent (DetailsOk also "
@@ -101,8 +126,22 @@ ASSUMPTIONS = [
     "after exit the patched properties are NEW property objects with the original fget/fset/fdel/doc (restore_ir_classes "
     "builds property(fget, fset)); `is`-identity of the property object itself is not restored and not claimed "
     "(nothing in onnx_ir depends on it); identity of plain methods is restored and checked",
-    "no strong reference: oracle only (gc + weakref, types of the entry fields); the model does not represent "
-    "timestamp / class_ / stack_trace / details",
+    "no strong reference: C20_no_strong_ref is about the model's entry-construction function (EntryFull: the eight "
+    "dataclass fields; details = a function from an environment of repr strings to a string).  That the real "
+    "record() builds that entry is differential: field names / types introspected and compared, details strings of all "
+    "43 real lambdas compared on synthetic arguments, gc.get_referents of every real entry, gc + weakref on every history",
+    "C20_restore assumes that the 43 assignments of restore_ir_classes themselves do not raise (plain setattr of captured "
+    "objects).  A restore step that raises (injected through the private _original_methods, or an asynchronous exception) "
+    "leaves the remaining slots wrapped and the journal current/active; a second __exit__ completes the restore "
+    "(C20_exit_fault / C20_exit_retry, model compared with the code under fault injection; observation D470, outside the property)",
+    "kernel instantiation (C20_transparent_kernel): the kernel updates its state atomically per public call, placed after "
+    "the call's instrumented sub-calls returned; completed calls return None (the kernel has outcomes only); the receiver "
+    "of Graph.sort is not carried by the kernel op (masked in the comparison); calls spelled through Function / Node.append "
+    "and attribute edits are not in the kernel stream (they are in the public-API stream); Graph.remove / Graph.sort "
+    "sub-call order is address-dependent and compared as multisets (also the entries of histories containing them)",
+    "generators: a journal held open by a generator is closed by GeneratorExit / gc (an exit by exception: C20_restore); "
+    "closing it while a journal entered later is still open is an exit out of order (C20_improper_nesting_not_restored: "
+    "classes stay wrapped) - outside 'properly nested', generated and compared with the model, reported in the distribution",
     "wrappers consume no recursion depth (a RecursionError could come earlier inside a journal)",
     "CPython attribute lookup on classes, functools.wraps, property objects, weakref, gc, sys.monitoring: trusted",
     "single thread: the class table and _current_journal are process-global",
@@ -160,6 +199,20 @@ class Real:
                 self.props[key] = (cls, parts[1], p.fget, p.fdel, p.__doc__)
                 self.prop_objs[key] = p
         self.class_dicts = [frozenset(vars(c)) for c in self.classes]
+        # every function / property / classmethod / staticmethod attribute of every class of the two modules, as it
+        # is before any journal: an attribute that a journal replaces and does not put back (a slot that is wrapped
+        # but missing from the saved table) is a restore failure even if the table does not list it
+        import inspect
+        import types
+
+        self.all_attrs = {}
+        for mod in (_core, _graph_containers):
+            for _n, c in sorted(vars(mod).items()):
+                if inspect.isclass(c) and str(c.__module__).startswith("onnx_ir") and c not in self.all_attrs:
+                    self.all_attrs[c] = {
+                        a: o for a, o in vars(c).items()
+                        if isinstance(o, (types.FunctionType, property, classmethod, staticmethod))
+                    }
         self.ir_types = (
             _core.Value, _core.Node, _core.Graph, _core.Function, _core.Model, _core.Attr,
             _core.TensorBase, _graph_containers._GraphIO, _graph_containers.GraphInitializers,
@@ -212,6 +265,14 @@ class Real:
                 bad.append(cls.__name__ + ":class-dict-keys")
         if self.J.get_current_journal() is not None:
             bad.append("current-journal")
+        patched_props = {(cls, name) for (cls, name, *_r) in self.props.values()}
+        for cls, snap in self.all_attrs.items():
+            now = vars(cls)
+            for a, o in snap.items():
+                if (cls, a) in patched_props:
+                    continue  # re-created by restore; its parts are compared above
+                if now.get(a) is not o:
+                    bad.append(f"{cls.__name__}.{a}:not-restored")
         return bad
 
     def repair(self) -> None:
@@ -224,6 +285,11 @@ class Real:
                 setattr(cls, name, property(fget, fn, fdel, doc))
             else:
                 setattr(cls, parts[1], fn)
+        patched_props = {(cls, name) for (cls, name, *_r) in self.props.values()}
+        for cls, snap in self.all_attrs.items():
+            for a, o in snap.items():
+                if (cls, a) not in patched_props and vars(cls).get(a) is not o:
+                    setattr(cls, a, o)
         self.J._current_journal = None
 
 
@@ -1419,6 +1485,7 @@ def run_case(ctx, case: dict, stream: str) -> tuple:
                 isinstance(e.timestamp, float) and isinstance(e.class_, type) and isinstance(e.ref, weakref.ref)
                 and (e.details is None or type(e.details) is str)
                 and all(type(f).__name__ == "FrameSummary" and f.locals is None for f in e.stack_trace)
+                and not entry_strong_refs(e, R.ir_types)
             )
             real.append([e.operation, idx if ok_cls and ok_fields else -2])
         exp = expected_entries(jr.events, jr.owner, j)
@@ -1829,6 +1896,719 @@ def bound_method_stream(ctx) -> None:
         gc_check(ctx, case, journals, wrs, sum(len(j.entries) for j in journals), f"bound-method:{label}")
 
 
+# --------------------------------------------------------------------------- round 3: slot table, entry, exit faults, kernel
+
+
+def _src_table(R: Real) -> dict:
+    """What the SOURCE of _wrappers.py says (ast, read at run time): the keys of get_original_methods with the
+    attribute they read; the assignments of wrap_ir_classes (class, attribute, plain / property, factory,
+    key, operation, target, text of the details lambda); the assignments of restore_ir_classes."""
+    import ast
+    import inspect
+
+    tree = ast.parse(inspect.getsource(R.W))
+    funcs = {n.name: n for n in tree.body if isinstance(n, ast.FunctionDef)}
+
+    def dotted(e):
+        parts = []
+        while isinstance(e, ast.Attribute):
+            parts.append(e.attr)
+            e = e.value
+        parts.append(e.id if isinstance(e, ast.Name) else "?")
+        return list(reversed(parts))
+
+    def sub_key(e):
+        if isinstance(e, ast.Subscript) and isinstance(e.slice, ast.Constant):
+            return e.slice.value
+        return None
+
+    out = {"orig": [], "wrap": [], "restore": []}
+    d = next(n.value for n in ast.walk(funcs["get_original_methods"]) if isinstance(n, ast.Assign) and isinstance(n.value, ast.Dict))
+    for k, v in zip(d.keys, d.values):
+        out["orig"].append([k.value, dotted(v)[1:]])
+    for fname in ("wrap_ir_classes", "restore_ir_classes"):
+        for st in funcs[fname].body:
+            if not (isinstance(st, ast.Assign) and isinstance(st.targets[0], ast.Attribute)):
+                continue
+            tgt = dotted(st.targets[0])
+            if tgt[0] not in ("_core", "_graph_containers"):
+                continue
+            val, is_prop = st.value, False
+            if isinstance(val, ast.Call) and isinstance(val.func, ast.Name) and val.func.id == "property":
+                is_prop, val = True, val.args[1]
+            row = {"cls": tgt[1], "attr": tgt[2], "prop": is_prop}
+            if fname == "restore_ir_classes":
+                row["key"] = sub_key(val)
+            else:
+                row["factory"] = val.func.id if isinstance(val, ast.Call) and isinstance(val.func, ast.Name) else "?"
+                args = list(val.args) if isinstance(val, ast.Call) else []
+                row["key"] = sub_key(args[1]) if len(args) > 1 else None
+                consts = [a.value for a in args[2:] if isinstance(a, ast.Constant)]
+                kws = {k.arg: k.value for k in (val.keywords if isinstance(val, ast.Call) else [])}
+                row["consts"] = consts
+                row["target_attr"] = kws["target_attr"].value if "target_attr" in kws else None
+                row["details_src"] = ast.unparse(kws["details_func"]) if "details_func" in kws else None
+            out[fname.split("_")[0]].append(row)
+    return out
+
+
+class _Rp:
+    """A synthetic argument: its repr / str are fixed texts; taking them is logged."""
+
+    def __init__(self, text: str, log: list | None = None, tag: str = "details"):
+        self.text, self.log, self.tag = text, log, tag
+
+    def __repr__(self):
+        if self.log is not None:
+            self.log.append(self.tag)
+        return "<" + self.text + ">"
+
+    def __str__(self):
+        return "str:" + self.text
+
+
+def _clone_closure(fn, **cells):
+    import types
+
+    code = fn.__code__
+    new = [types.CellType(cells[n]) if n in cells else c for n, c in zip(code.co_freevars, fn.__closure__)]
+    return types.FunctionType(code, fn.__globals__, fn.__name__, fn.__defaults__, tuple(new))
+
+
+def _probe_slot(R: Real, k: int, fn, with_defaults: bool, graph_arg):
+    """Runs the REAL wrapper code object of slot k (with its real details lambda) around a stub original and a
+    stub journal, on synthetic arguments.  Returns the observed order of effects, what was recorded, and the
+    environment of reprs for the model's `detailsOf`."""
+    import inspect
+
+    code = fn.__code__
+    kind = R.wrapper_codes[code]
+    cells = dict(zip(code.co_freevars, (c.cell_contents for c in fn.__closure__)))
+    log: list = []
+    recorded: list = []
+
+    class StubJournal:
+        def record(self, obj, operation, details=None):
+            log.append("record")
+            recorded.append((obj, operation, details))
+
+    sentinel = object()
+    state = {"raise": False}
+
+    def original(*a, **kw):
+        log.append("orig")
+        if state["raise"]:
+            raise ZeroDivisionError("stub original raises")
+        return sentinel
+
+    target = _Rp("TARGET")
+
+    class StubSelf:
+        def __repr__(self):
+            return "<SELF>"
+
+    slf = StubSelf()
+    slf.name = _Rp("NAME")
+    slf._inputs, slf._outputs = [1, 2, 3], [1, 2]
+    slf._shape = _Rp("SHAPE")
+    slf._graph = slf._owner = target
+    new_cells = {"journal": StubJournal()}
+    for nm in ("original_init", "original_setter", "original_method"):
+        if nm in cells:
+            new_cells[nm] = original
+    args: list = []
+    env = {"reprSelf": "<SELF>", "className": "StubSelf", "attrRepr": {"_shape": "<SHAPE>"},
+           "attrStr": {"name": "str:NAME"}, "attrLen": {"_inputs": 3, "_outputs": 2}, "args": []}
+    if kind == "setter":
+        prop = cells["property_name"]
+        setattr(slf, prop, _Rp("OLD", log))
+        env["attrRepr"][prop] = "<OLD>"
+        args = [_Rp("A0")]
+    else:
+        real_details = cells["details_func"]
+
+        def details(*a, **kw):
+            log.append("details")
+            return real_details(*a, **kw)
+
+        new_cells["details_func"] = details
+        if real_details is repr:
+            nparams, ndefault = 0, 0
+        else:
+            ps = list(inspect.signature(real_details).parameters.values())[1:]
+            nparams = len(ps)
+            ndefault = sum(1 for p in ps if p.default is not inspect.Parameter.empty)
+        if kind != "init":
+            n = nparams - ndefault if with_defaults else nparams
+            args = [_Rp(f"A{i}") for i in range(n)]
+            if graph_arg is not None and args:
+                args[0] = graph_arg
+    for a in args:
+        if isinstance(a, _Rp):
+            env["args"].append({"repr": repr(a), "str": str(a), "isGraph": False, "nameRepr": ""})
+        else:
+            env["args"].append({"repr": repr(a), "str": str(a), "isGraph": True, "nameRepr": repr(a.name)})
+    del log[:]
+    w = _clone_closure(fn, **new_cells)
+    res = w(slf, *args)
+    order = list(log)
+    rec = recorded[-1] if recorded else None
+    # second run: the original raises
+    del log[:]
+    n_before = len(recorded)
+    state["raise"] = True
+    try:
+        w(slf, *args)
+        propagated = False
+    except ZeroDivisionError:
+        propagated = True
+    first = {}
+    for i, e in enumerate(order):
+        first.setdefault(e, i)
+    return {
+        "order": order,
+        "details_before": "details" in first and "orig" in first and first["details"] < first["orig"],
+        "record_after": (order.count("record") == 1 and "orig" in first and first["orig"] < first["record"]
+                         and len(recorded) == n_before and propagated),
+        "returns_result": res is sentinel,
+        "records_self": rec is not None and rec[0] is slf,
+        "records_target": rec is not None and rec[0] is target,
+        "operation": rec[1] if rec else None,
+        "details": rec[2] if rec else "<no record>",
+        "env": env,
+    }
+
+
+def check_slot_table(ctx) -> None:
+    """Slot-table completeness: the model's table (`journal.meta`: where each wrapper is installed, how, with which
+    order of effects - the flags are COMPUTED by running the model's runImpl - and which details expression) against
+    (a) the source text of get_original_methods / wrap_ir_classes / restore_ir_classes, (b) the class attributes
+    that really change when a journal is entered (every class of _core and _graph_containers, not only the listed
+    ones), (c) the behaviour of each installed wrapper's real code object with its real details lambda around a stub
+    original and a stub journal."""
+    R = Real.get()
+    ans = lean_batch([{"m": "journal.meta"}])[0]
+    model = ans.get("r", [])
+    ctx.case(["slot-table"], sample={"slots": len(model)}, stream="slot-table")
+    if ans.get("n_meta") != len(model) or len(model) != len(R.KEYS):
+        ctx.disagree("slot table: number of slots", "slot-table", [ans.get("n_meta"), len(model)], len(R.KEYS))
+    src = _src_table(R)
+    # (a) the three functions of the source agree with each other and with the model, entry by entry, in order
+    for i, key in enumerate(R.KEYS):
+        m = model[i] if i < len(model) else {}
+        o = src["orig"][i] if i < len(src["orig"]) else [None, []]
+        wr = src["wrap"][i] if i < len(src["wrap"]) else {}
+        rs = src["restore"][i] if i < len(src["restore"]) else {}
+        install = "property-setter" if wr.get("prop") else ("constructor" if wr.get("attr") == "__init__" else "method")
+        fac_kind = {"_init_wrapper": "init", "_setter_wrapper": "setter", "_method_wrapper": "method",
+                    "_container_method_wrapper": "container"}.get(wr.get("factory"), "?")
+        consts = wr.get("consts", [])
+        op = "init" if fac_kind == "init" else (consts[-1] if consts else None)
+        tgt = wr.get("target_attr") or (consts[0] if fac_kind == "setter" and consts else "")
+        real_row = {"key": key, "orig_attr": o[1], "cls": wr.get("cls"), "attr": wr.get("attr"), "install": install,
+                    "kind": fac_kind, "op": op, "target": tgt, "wrap_key": wr.get("key"),
+                    "restore": [rs.get("cls"), rs.get("attr"), rs.get("prop"), rs.get("key")]}
+        model_row = {"key": m.get("key"), "orig_attr": [m.get("cls"), m.get("attr")] + (["fset"] if m.get("install") == "property-setter" else []),
+                     "cls": m.get("cls"), "attr": m.get("attr"), "install": m.get("install"), "kind": m.get("kind"),
+                     "op": m.get("op"), "target": m.get("target"), "wrap_key": m.get("meta_key"),
+                     "restore": [m.get("cls"), m.get("attr"), m.get("install") == "property-setter", m.get("key")]}
+        if o[0] != key:
+            real_row["key"] = [key, o[0]]
+        if real_row != model_row:
+            ctx.disagree(f"slot table entry {i} ({key}): model != source of _wrappers.py", "slot-table", model_row, real_row)
+    for name in ("orig", "wrap", "restore"):
+        if len(src[name]) != len(R.KEYS):
+            ctx.disagree(f"slot table: {name} has {len(src[name])} entries, the table {len(R.KEYS)} (a slot on one side only)",
+                         "slot-table", len(model), [r if isinstance(r, list) else [r.get("cls"), r.get("attr")] for r in src[name]][-3:])
+    # (b) which class attributes change on __enter__, over every class of the two modules
+    import inspect
+
+    classes = []
+    for mod in (R.core, R.gc_):
+        for _n, c in sorted(vars(mod).items()):
+            if inspect.isclass(c) and str(c.__module__).startswith("onnx_ir") and c not in classes:
+                classes.append(c)
+    before = {c: dict(vars(c)) for c in classes}
+    j = R.J.Journal()
+    changed, installed = [], {}
+    with j:
+        for c in classes:
+            now = vars(c)
+            for a in sorted(set(now) | set(before[c])):
+                if now.get(a) is not before[c].get(a):
+                    changed.append([c.__name__, a])
+                    installed[(c.__name__, a)] = now.get(a)
+        # (c) behaviour of every installed wrapper
+        g_real = R.ir.Graph([], [], nodes=[], name="gname")
+        probes = []
+        for i, m in enumerate(model):
+            obj = installed.get((m["cls"], m["attr"]))
+            fn = obj.fset if isinstance(obj, property) else obj
+            if fn is None or getattr(fn, "__code__", None) not in R.wrapper_codes:
+                ctx.disagree(f"slot table entry {i} ({m['key']}): no journaling wrapper installed at {m['cls']}.{m['attr']}",
+                             "slot-table", m, repr(obj)[:80])
+                continue
+            if isinstance(obj, property) != (m["install"] == "property-setter"):
+                ctx.disagree(f"slot table entry {i} ({m['key']}): installed as property?", "slot-table", m["install"], type(obj).__name__)
+            variants = [(False, None), (True, None)] + ([(False, g_real)] if m["key"] == "Node.graph.fset" else [])
+            for with_defaults, garg in variants:
+                probes.append((i, m, _probe_slot(R, i, fn, with_defaults, garg)))
+    model_changed = sorted([m["cls"], m["attr"]] for m in model)
+    if sorted(changed) != model_changed:
+        only_real = [x for x in changed if x not in model_changed]
+        only_model = [x for x in model_changed if x not in changed]
+        ctx.disagree("slot table: class attributes replaced by __enter__ != the model's table (a slot on one side only)",
+                     "slot-table", only_model, only_real)
+    answers = lean_batch([{"m": "journal.details", "k": i, "env": p["env"]} for i, _m, p in probes])
+    for (i, m, p), a in zip(probes, answers):
+        ctx.case(["slot-probe", i, len(p["env"]["args"]), any(x["isGraph"] for x in p["env"]["args"])], stream="slot-probe",
+                 kind=m["kind"])
+        real_flags = {x: p[x] for x in ("details_before", "record_after", "returns_result")}
+        real_flags["records_self"] = p["records_self"] and not p["records_target"] if m["kind"] != "container" else not p["records_target"]
+        model_flags = {x: m[x] for x in ("details_before", "record_after", "returns_result", "records_self")}
+        if real_flags != model_flags:
+            ctx.disagree(f"slot {i} ({m['key']}): order of effects in the wrapper (details / original / record): model != code",
+                         "slot-table", model_flags, {**real_flags, "order": p["order"]})
+        if p["operation"] != m["op"]:
+            ctx.disagree(f"slot {i} ({m['key']}): operation name recorded", "slot-table", m["op"], p["operation"])
+        if a.get("details") != p["details"]:
+            ctx.disagree(f"slot {i} ({m['key']}): details string: model's details expression != the real lambda",
+                         {"slot": i, "env": p["env"]}, a.get("details"), p["details"])
+        if p["details"] is not None and type(p["details"]) is not str:
+            ctx.fail(f"slot-table/details-not-a-string:{m['key']}", "a details expression returns something that is not a str", {"slot": i})
+    if R.pristine_problems():
+        ctx.fail("slot-table/restore", "classes not restored after a single journal", {"left": R.pristine_problems()})
+        R.repair()
+
+
+ENTRY_FIELD_TYPES = {  # what the model's FVal constructors print as (journal.details 'fields'); None-able fields have two
+    "timestamp": {"float"}, "operation": {"str"}, "class_": {"type"}, "class_name": {"str"},
+    "ref": {"ReferenceType", "NoneType"}, "object_id": {"int"}, "stack_trace": {"list"}, "details": {"str", "NoneType"},
+}
+
+
+def entry_strong_refs(e, ir_types) -> list:
+    """IR instances referenced (strongly) by a JournalEntry: by the entry object, by its stack_trace list and by the
+    frame summaries (gc.get_referents: every object the C-level traversal of these objects reaches in one step)."""
+    found = []
+    objs = [e]
+    for holder in (e, e.stack_trace, *e.stack_trace):
+        for r in gc.get_referents(holder):
+            if isinstance(r, ir_types):
+                found.append(type(r).__name__)
+            elif isinstance(r, dict):  # an instance __dict__
+                objs.append(r)
+                found.extend(type(x).__name__ for x in r.values() if isinstance(x, ir_types))
+    return found
+
+
+def check_entry_shape(ctx) -> None:
+    """The dataclass as it really is vs the model's EntryFull: field names in order, frozen, and the runtime types of
+    the fields of real entries (one journal over the coverage history) vs the types the model's constructors have."""
+    import dataclasses
+
+    R = Real.get()
+    E = R.J.JournalEntry
+    names = [f.name for f in dataclasses.fields(E)]
+    ans = lean_batch([{"m": "journal.details", "k": k, "env": {"className": "X", "args": []}} for k in (0, 1)])
+    model_names = [f[0] for f in ans[0]["fields"]]
+    model_types: dict = {}
+    for a in ans:
+        for n, t in a["fields"]:
+            model_types.setdefault(n, set()).add(t)
+        if a["strong"] or not a["core_ok"]:
+            ctx.disagree("model entry: strong reference / core projection", "entry-shape", a, None)
+    model_types["ref"].add("NoneType")  # recordFull with obj = none (Journal.record(None, ...))
+    ctx.case(["entry-shape"], stream="entry-shape", sample={"fields": names})
+    if names != model_names:
+        ctx.disagree("JournalEntry fields: model != dataclass", "entry-shape", model_names, names)
+    if not E.__dataclass_params__.frozen:
+        ctx.disagree("JournalEntry is no longer frozen", "entry-shape", True, False)
+    if {k: sorted(v) for k, v in model_types.items()} != {k: sorted(v) for k, v in ENTRY_FIELD_TYPES.items()}:
+        ctx.disagree("entry field types: model constructors != harness table", "entry-shape", {k: sorted(v) for k, v in model_types.items()}, None)
+    case = coverage_case()
+    jr = Runner(R, case, journaled=True)
+    jr.run()
+    if R.pristine_problems():
+        R.repair()
+    seen: dict = {n: set() for n in names}
+    for j in jr.journals:
+        for e in j.entries:
+            for n in names:
+                x = getattr(e, n)
+                seen[n].add("type" if isinstance(x, type) else type(x).__name__)  # (a class may have a metaclass)
+            if any(type(f).__name__ != "FrameSummary" or f.locals is not None for f in e.stack_trace):
+                ctx.fail("entry-shape/stack-trace-keeps-locals", "a stack_trace element is not a FrameSummary without locals", {})
+            strong = entry_strong_refs(e, R.ir_types)
+            if strong:
+                ctx.fail(f"entry-shape/strong-ref:{e.operation}", "an entry references an IR instance strongly", {"op": e.operation, "types": strong[:5]})
+            if hasattr(e, "__dict__") and set(vars(e)) != set(names):
+                ctx.fail("entry-shape/extra-attribute", "an entry carries attributes beyond the dataclass fields", {"attrs": sorted(vars(e))})
+    null = R.J.Journal()
+    null.record(None, "probe")  # the `obj is None` branch of record
+    for n in names:
+        seen[n].add(type(getattr(null.entries[0], n)).__name__)
+    for n in names:
+        if not seen[n] <= ENTRY_FIELD_TYPES.get(n, set()):
+            ctx.disagree(f"entry field {n}: runtime types of real entries are not the model's", "entry-shape",
+                         sorted(ENTRY_FIELD_TYPES.get(n, set())), sorted(seen[n]))
+    ctx.extra["entry_field_types_observed"] = {n: sorted(v) for n, v in seen.items()}
+
+
+class _Faulty(dict):
+    """journal._original_methods whose n-th lookup raises: a restore step that fails half-way."""
+
+    def __init__(self, d, n):
+        super().__init__(d)
+        self.n, self.c = n, 0
+
+    def __getitem__(self, k):
+        self.c += 1
+        if self.c - 1 == self.n:
+            raise RuntimeError(f"injected: restore step {self.n} fails")
+        return super().__getitem__(k)
+
+
+def _ctl_state(R: Real, journals: list, refused: bool = False) -> dict:
+    cur = R.J.get_current_journal()
+    return {
+        "table": R.decode_table(R.table(), journals),
+        "current": next((i for i, x in enumerate(journals) if x is cur), None),
+        "refused": refused,
+        "active": [bool(getattr(jj, "_active", False)) for jj in journals],
+        "previous": [next((i for i, x in enumerate(journals) if x is jj._previous_journal), None) for jj in journals],
+        "captured": [R.decode_table([jj._original_methods[k] for k in R.KEYS], journals) if jj._original_methods else None for jj in journals],
+    }
+
+
+def exit_fault_stream(ctx) -> None:
+    """`__exit__` whose restore step n raises (fault injected through the journal's table of originals): the model's
+    `exitFail` must predict the class table / current journal / flags after the failed exit and after a second,
+    successful `__exit__`.  The situation is outside the property (observation D470, see proposed_fixes/D470.md): it
+    is counted in the input distribution, never reported as a failure."""
+    R = Real.get()
+    nslots = len(R.KEYS)
+    for depth in (1, 2):
+        for n in sorted({0, 1, 2, 11, 12, 20, 33, nslots - 1}):
+            journals = [R.J.Journal() for _ in range(depth)]
+            evs, real = [], []
+            for i, j in enumerate(journals):
+                j.__enter__()
+                evs.append({"j": i, "enter": True})
+                real.append(_ctl_state(R, journals))
+            inner = journals[-1]
+            good = inner._original_methods
+            inner._original_methods = _Faulty(good, n)
+            raised = False
+            try:
+                inner.__exit__(None, None, None)
+            except RuntimeError:
+                raised = True
+            inner._original_methods = good
+            evs.append({"j": depth - 1, "enter": False, "fail": n})
+            st = _ctl_state(R, journals)
+            real.append(st)
+            wrapped = [R.KEYS[k] for k, x in enumerate(st["table"]) if (depth - 1) in x["layers"]]
+            # retry
+            inner.__exit__(None, None, None)
+            evs.append({"j": depth - 1, "enter": False})
+            real.append(_ctl_state(R, journals))
+            after_retry = [R.KEYS[k] for k, x in enumerate(real[-1]["table"]) if (depth - 1) in x["layers"]]
+            for i in reversed(range(depth - 1)):
+                journals[i].__exit__(None, None, None)
+                evs.append({"j": i, "enter": False})
+                real.append(_ctl_state(R, journals))
+            left = R.pristine_problems()
+            R.repair()
+            ans = lean_batch([{"m": "journal.ctl", "nj": depth, "evs": evs}])[0]
+            ctx.case(["exit-fault", depth, n], stream="exit-fault", fault_at=min(n, 40) // 10 * 10, depth=depth)
+            if ans.get("r") != real:
+                k = next((i for i, (a, b) in enumerate(zip(ans.get("r", []), real)) if a != b), -1)
+                ctx.disagree("exit fault: class table / current / active after a restore step raised: model != implementation",
+                             {"evs": evs, "step": k}, (ans.get("r") or [None])[k] if k >= 0 else ans, real[k] if k >= 0 else None)
+            if not raised:
+                ctx.disagree("exit fault: the injected failure did not propagate out of __exit__", {"evs": evs}, True, False)
+            # Outside the property (its quantifier: exits taken normally or by an exception raised INSIDE the block; the
+            # fault here is injected through a private attribute): recorded as observation D470, never a failure.  What is
+            # CHECKED is that the model's exitFail predicts the real state after the failed and after the repeated exit.
+            ctx.count(f"observation=D470:restore-step-raises:classes-left-wrapped={bool(wrapped)}")
+            ctx.count(f"observation=D470:journal-stays-active-and-current={bool(st['active'][depth - 1] and st['current'] == depth - 1)}")
+            ctx.count(f"observation=D470:second-exit-completes-the-restore={not (after_retry or left)}")
+
+
+def generator_stream(ctx) -> None:
+    """A journal used as a context manager inside a generator: closed explicitly, dropped and collected, and closed
+    while an outer-looking `with` entered later is still open (exit order != reverse entry order)."""
+    R = Real.get()
+    ir = R.ir
+
+    def gen(j):
+        with j:
+            yield
+            ir.Value(name="in-generator")
+            yield
+
+    results = []
+    for how in ("close", "close-after-resume", "gc", "throw"):
+        j = R.J.Journal()
+        g = gen(j)
+        next(g)
+        ir.Value(name="x")
+        if how == "close":
+            g.close()
+        elif how == "close-after-resume":
+            next(g)
+            g.close()
+        elif how == "throw":
+            try:
+                g.throw(UserBoom("thrown into the generator"))
+            except UserBoom:
+                pass
+        else:
+            del g
+            gc.collect()
+        n_after = len(j.entries)
+        ir.Value(name="after")
+        left = R.pristine_problems()
+        expect = 2 if how == "close-after-resume" else 1
+        results.append(how)
+        ctx.case(["generator", how], stream="generator", sample={"stream": "generator", "how": how, "entries": n_after})
+        if left or j._active:
+            R.repair()
+            ctx.fail(f"generator:{how}/restore", "classes not restored after the generator holding the journal was finished",
+                     {"how": how, "left": left[:6], "active": j._active})
+        if n_after != expect or len(j.entries) != n_after:
+            ctx.fail(f"generator:{how}/entries", "entries of a journal held by a generator", {"how": how, "entries": [e.operation for e in j.entries]})
+    # exit order != reverse entry order: journal 0 is held by a generator, journal 1 entered later and left last
+    j0, j1 = R.J.Journal(), R.J.Journal()
+    journals = [j0, j1]
+    real, evs = [], []
+    g = gen(j0)
+    next(g)
+    evs.append({"j": 0, "enter": True}); real.append(_ctl_state(R, journals))
+    j1.__enter__()
+    evs.append({"j": 1, "enter": True}); real.append(_ctl_state(R, journals))
+    g.close()
+    evs.append({"j": 0, "enter": False}); real.append(_ctl_state(R, journals))
+    j1.__exit__(None, None, None)
+    evs.append({"j": 1, "enter": False}); real.append(_ctl_state(R, journals))
+    left = R.pristine_problems()
+    R.repair()
+    ans = lean_batch([{"m": "journal.ctl", "nj": 2, "evs": evs}])[0]
+    ctx.case(["generator", "interleaved"], stream="generator", sample={"stream": "generator", "how": "interleaved", "not_restored": len(left)})
+    ctx.count(f"generator:interleaved-exit-order:classes-left-wrapped={bool(left)}")
+    if ans.get("r") != real:
+        k = next((i for i, (a, b) in enumerate(zip(ans.get("r", []), real)) if a != b), -1)
+        ctx.disagree("generator closed out of order: model != implementation", {"evs": evs, "step": k},
+                     (ans.get("r") or [None])[k] if k >= 0 else ans, real[k] if k >= 0 else None)
+
+
+# ---- kernel histories: the model's instantiated call trees vs the observed ones
+
+K_SORT_SLOT = 26
+K_UNORDERED = (23, 26)  # Graph.remove / Graph.sort iterate a (frozen)set: their sub-calls are compared as multisets
+K_STRIP = ("via", "attrGraphs", "attrGraphsList", "badAttr", "ior")
+
+
+def _k_enc(real, o, R: Real):
+    """kernel identity of a real object as the model packs it (KObj.enc)"""
+    c = R.core
+    i = id(o)
+    if i in real.vid:
+        return 8 * real.vid[i]
+    if i in real.nid:
+        return 8 * real.nid[i] + 1
+    if i in real.gid:
+        return 8 * real.gid[i] + 2
+    if i in real.tid:
+        return 8 * real.tid[i] + 7
+    for gi, g in enumerate(real.graphs):
+        if o is g._inputs:
+            return 8 * gi + 3
+        if o is g._outputs:
+            return 8 * gi + 4
+        if o is g._initializers:
+            return 8 * gi + 5
+    for ni, n in enumerate(real.nodes):
+        if o is n._attributes:
+            return 8 * ni + 6
+    # an object whose constructor was rejected / is running: it would have received the next index
+    if isinstance(o, c.Node):
+        return 8 * len(real.nodes) + 1
+    if isinstance(o, c.Graph):
+        return 8 * len(real.graphs) + 2
+    if isinstance(o, c.Value):
+        return 8 * len(real.vals)
+    if isinstance(o, c.TensorBase):
+        return 8 * len(real.tensors) + 7
+    return -1
+
+
+def _k_tree(t: dict, enc: dict) -> list:
+    kids = [_k_tree(x, enc) for x in t["steps"]]
+    if t["k"] in K_UNORDERED:
+        kids = sorted(kids, key=json.dumps)
+    return [t["k"], 2 if t["k"] == K_SORT_SLOT else enc.get(t["self"], -1), "ret" in t["out"], kids]
+
+
+def _k_model_tree(t: list) -> list:
+    kids = [_k_model_tree(x) for x in t[3]]
+    if t[0] in K_UNORDERED:
+        kids = sorted(kids, key=json.dumps)
+    return [t[0], t[1], t[2], kids]
+
+
+def _k_run(R: Real, ops: list, journals_at, nest: int):
+    """Runs a kernel history on fresh real objects; from position `journals_at` on inside `nest` nested journals.
+    Returns per-call observed trees (canonical), outcomes, mops, snapshot, the journals and per-entry (op, enc)."""
+    from harness import kernel_ops as K
+    import contextlib
+
+    real = K.Real()
+    reg = Registry()
+    tr = Tracer.get(R)
+    journals = [R.J.Journal() for _ in range(nest)]
+    trees, outcomes, mops = [], [], []
+    enc_of: dict = {}
+
+    def refresh():
+        for idx, o in enumerate(reg.objs):
+            if enc_of.get(idx, -1) < 0 or True:
+                enc_of[idx] = _k_enc(real, o, R)
+
+    def one(op):
+        tr.begin(reg)
+        try:
+            o, kind, mop = real.apply(op)
+        finally:
+            evs = tr.events
+            tr.end()
+        refresh()
+        f = forest([e for e in evs if e[0] in ("start", "finish")])
+        trees.append([_k_tree(t, enc_of) for t in f])
+        outcomes.append(o)
+        mops.append(mop)
+
+    with contextlib.ExitStack() as st:
+        for i, op in enumerate(ops):
+            if i == journals_at:
+                for j in journals:
+                    st.enter_context(j)
+            one(op)
+        if journals_at >= len(ops):
+            for j in journals:
+                st.enter_context(j)
+    refresh()
+    ids = {id(o): enc_of[i] for i, o in enumerate(reg.objs)}
+    entries = [[[e.operation, 2 if e.operation == "sort" else ids.get(id(e.ref()), -1)] for e in j.entries] for j in journals]
+    return trees, outcomes, mops, real.snapshot(), entries, real
+
+
+def kernel_cases(rng, n: int, maxlen: int) -> list:
+    """C01-alphabet histories generated against the real state (kernel_ops.Gen), with the spellings the kernel op does
+    not carry (through a Function / Node.append, graph attributes) and the ops outside the kernel state removed."""
+    from harness import kernel_ops as K
+
+    cases = []
+    for _ in range(n):
+        real = K.Real()
+        gen = K.Gen(rng, real, 0.25)
+        ops = []
+        for _i in range(rng.choice([4, 8, 12, maxlen])):
+            op = gen.op()
+            if op["op"] in ("attrEdit", "newValueProd"):
+                continue
+            op = {k: v for k, v in op.items() if k not in K_STRIP}
+            if op["op"] == "newNode" and any(real.vals[i].is_initializer() for i in (op.get("outputs") or [])):
+                continue  # C01's known finding D12b: the code accepts an initializer as a node output, the kernel model rejects it
+            o, _kind, _mop = real.apply(op)
+            gen.after(op, o)
+            ops.append(op)
+        cases.append({"ops": ops, "from": rng.randint(0, len(ops)), "nest": rng.randint(0, 3)})
+    return cases
+
+
+def kernel_stream(ctx, cases: list, stream: str = "kernel") -> None:
+    """For every history: (1) the call tree of each call observed on the real code WITHOUT a journal vs the model's
+    `callTree` computed from the kernel state; (2) the same history with journals: outcomes / kernel snapshot equal to
+    the un-journaled run (oracle), entries of every journal vs the model's journaled run of the instantiated
+    configuration `kCfg`; (3) the model's own run agrees with C20_transparent_kernel (world, log, calls)."""
+    R = Real.get()
+    reqs, reals = [], []
+    for case in cases:
+        ops = case["ops"]
+        if R.pristine_problems():
+            R.repair()
+        p_trees, p_out, p_mops, p_snap, _e, _r = _k_run(R, ops, len(ops) + 1, 0)
+        j_trees, j_out, j_mops, j_snap, j_entries, _r2 = _k_run(R, ops, case["from"], case["nest"])
+        left = R.pristine_problems()
+        if left:
+            R.repair()
+        reqs.append({"m": "journal.kernel", "fuel": 8, "nj": 3, "ops": p_mops, "from": case["from"], "nest": list(range(case["nest"]))})
+        reals.append((p_trees, p_out, j_trees, j_out, p_snap == j_snap, j_entries, left, p_mops == j_mops))
+    answers = lean_batch(reqs)
+    for case, (p_trees, p_out, j_trees, j_out, same_snap, j_entries, left, same_mops), ans in zip(cases, reals, answers):
+        ops = case["ops"]
+        ctx.case(["kernel", case], nontrivial=len(ops) > 0, stream=stream, sample=case if len(ops) <= 4 else None,
+                 kernel_len=min(len(ops) // 4 * 4, 32), nest=case["nest"])
+        for op, o in zip(ops, p_out):
+            label = op["op"] + ("." + op["m"] if op["op"] in ("io", "init") else "")
+            ctx.count(f"kernel-op={label}:{o}")
+        sig = f"{stream}"
+        # oracle: transparent on the kernel alphabet
+        if p_out != j_out or not same_snap or not same_mops:
+            ctx.fail(f"{sig}/transparent", "a C01-alphabet history gives other outcomes / another IR inside journals", {"case": case, "plain": p_out, "journaled": j_out})
+            continue
+        if p_trees != j_trees:
+            ctx.fail(f"{sig}/transparent-calls", "the original functions executed differ inside journals", {"case": case})
+            continue
+        if left:
+            ctx.fail(f"{sig}/restore-final", "classes not as before after the history", {"case": case, "left": left[:6]})
+        if "err" in ans:
+            ctx.disagree("model driver error: " + str(ans["err"]), case, ans, None)
+            continue
+        m_trees = [[_k_model_tree(t) for t in ts] for ts in ans["trees"]]
+        for i, (a, b) in enumerate(zip(m_trees, p_trees)):
+            if a != b:
+                op = ops[i]
+                label = op["op"] + ("." + op["m"] if op["op"] in ("io", "init") else "")
+                ctx.disagree(f"kernel call tree of {label}: model's instantiated tree != instrumented calls observed on the real code",
+                             {"ops": ops[: i + 1], "stream": stream}, a, b)
+                break
+        m_log = ["ok" if "ret" in o else "raised" for o in ans["log"]]
+        if m_log != j_out:
+            ctx.disagree("kernel history inside journals: outcomes: model != implementation", {"case": case}, m_log, j_out)
+        m_entries = [[[e[1], 2 if e[1] == "sort" else e[2].get("weak", -9)] for e in es] for es in ans["entries"]][: case["nest"]]
+        r_entries = j_entries
+        unordered_ops = any(op["op"] in ("remove", "sort", "replaceNodesAndValues") for op in ops)
+        if unordered_ops:
+            key = json.dumps
+            m_entries, r_entries = [sorted(es, key=key) for es in m_entries], [sorted(es, key=key) for es in r_entries]
+        if m_entries != r_entries:
+            k = next((i for i, (a, b) in enumerate(zip(m_entries, r_entries)) if a != b), 0)
+            ctx.disagree("kernel history inside journals: entries: model != implementation", {"case": case, "journal": k},
+                         str(m_entries[k])[:1200] if m_entries else None, str(r_entries[k])[:1200] if r_entries else None)
+        if not (ans["world_eq"] and ans["log_eq"] and ans["calls_eq"]) or ans["exc"] is not None:
+            ctx.disagree("model: journaled kernel run differs from the kernel semantics (contradicts C20_transparent_kernel)",
+                         {"case": case}, [ans["world_eq"], ans["log_eq"], ans["calls_eq"], ans["exc"]], None)
+        if ans["entries"] != ans["expected"]:
+            ctx.disagree("model: kernel entries != expectedFor (contradicts C20_transparent_kernel)", {"case": case}, None, None)
+        if any(x["layers"] or x["base"] != k for k, x in enumerate(ans["table"])) or ans["current"] is not None:
+            ctx.disagree("model: classes not restored after the kernel history", {"case": case}, None, None)
+
+
+def _kernel_shard(args):
+    seed, n, maxlen = args
+    import random
+
+    part = Part()
+    R = Real.get()
+    load_slot_table(R)
+    rng = random.Random(f"C20-kernel:{seed}")
+    kernel_stream(part, kernel_cases(rng, n, maxlen))
+    return part
+
+
 def process_cases(ctx, cases: list, stream: str, chunk: int = 40) -> None:
     # in chunks: the journals of a chunk (entries with their stack traces) are dropped before the next
     # one, which keeps memory and the cost of the gc.collect() in gc_check bounded
@@ -1893,6 +2673,8 @@ def run(ctx: Ctx) -> None:
     )
     R = Real.get()
     check_slots(ctx)
+    check_slot_table(ctx)
+    check_entry_shape(ctx)
     witnesses(ctx)
     # corpus first
     for obj in load_corpus("C20"):
@@ -1909,12 +2691,18 @@ def run(ctx: Ctx) -> None:
     process_cases(ctx, [cov, cov1], "coverage")
     details_stream(ctx)
     bound_method_stream(ctx)
+    exit_fault_stream(ctx)
+    generator_stream(ctx)
     ctx.exhaustive_scopes.append("nesting depth 0-3 x exception thrown at no level / each level x thrown by user code / by a rejected IR operation")
     # random histories, sharded
     shards = 16
     per = ctx.pick(60, 800)
     parts = pmap(_shard, [(f"{ctx.seed}:{i}", per, max(2, per // 10)) for i in range(shards)])
     for p in parts:
+        ctx.merge(p)
+    # C01-alphabet histories: the model's instantiated call trees vs the observed ones, inside 0-3 journals
+    kper = ctx.pick(120, 1500)
+    for p in pmap(_kernel_shard, [(f"{ctx.seed}:{i}", kper, ctx.pick(20, 30)) for i in range(shards)]):
         ctx.merge(p)
     if R.pristine_problems():
         ctx.fail("final/restore", "classes not pristine at the end of the run", {"left": R.pristine_problems()})
@@ -1938,3 +2726,5 @@ def replay(ctx: Ctx, obj: dict) -> None:
         ctl_stream(ctx, [case["evs"]], case.get("nj", 3), "corpus-ctl")
     elif "blocks" in case:
         process_cases(ctx, [case], "corpus")
+    elif "ops" in case:  # a C01-alphabet history (kernel stream)
+        kernel_stream(ctx, [{"ops": case["ops"], "from": case.get("from", 0), "nest": case.get("nest", 2)}], "corpus-kernel")
